@@ -47,8 +47,8 @@ def axes(seed, small=False):
     return a
 
 
-ANGLES_FULL = [0.0, 5e-324, 1e-200, 1e-160, 1e-12, 1e-6, 1e-3, 0.03, 0.1, PI / 4, 1.0, PI / 2,
-               2 * PI / 3, 2.5, PI - 0.01, PI]
+ANGLES_FULL = [0.0, 5e-324, 1e-200, 1e-160, 1e-12, 1e-8, 1e-6, 1e-4, 1e-3, 0.03, 0.1, PI / 4, 1.0, PI / 2,
+               2 * PI / 3, 2.5, PI - 0.01, PI - 1e-4, PI - 1e-6, PI]
 ANGLES_BEYOND = [PI + 0.1, 4.5, 6.0, 6.2]
 ANGLES_SMALL = [0.0, 1e-6, 0.1, 1.0, PI / 2, 2.5]
 
@@ -56,9 +56,9 @@ ANGLES_SMALL = [0.0, 1e-6, 0.1, 1.0, PI / 2, 2.5]
 def vecs(seed, n=3, small=False):
     if n == 3:
         v = [np.zeros(3), np.array([1.0, 0, 0]), np.array([1.0, -2.0, 3.0]), np.array([-40.0, 25.0, 7.0]),
-             generic_vec(seed, 3)]
+             np.array([0, 2.0, 0]), generic_vec(seed, 3)]  # (0,2,0): a zero ahead of a non-zero entry (sparse storage)
     elif n == 2:
-        v = [np.zeros(2), np.array([1.0, 0]), np.array([1.0, -2.0]), np.array([-40.0, 25.0]), generic_vec(seed, 2)]
+        v = [np.zeros(2), np.array([1.0, 0]), np.array([1.0, -2.0]), np.array([-40.0, 25.0]), np.array([0, 2.0]), generic_vec(seed, 2)]
     else:
         v = [np.zeros(n), np.eye(n)[0], generic_vec(seed, n)]
     if small:
@@ -96,7 +96,7 @@ def rotvecs(seed, angles=None, small=False):
 
 
 def so2_angles(seed):
-    return [0.0, 1e-200, 1e-6, 0.3, -0.7, PI / 2, 2.5, -3.0, PI, 4.0, -5.5, 6.2]
+    return [0.0, 1e-200, 1e-6, 1e-4, 1e-3, -5e-3, 0.05, 0.3, -0.7, PI / 2, 2.5, -3.0, PI - 1e-5, PI, 4.0, -5.5, 6.2]
 
 
 def rot_reps(kind, v, include_noncanonical=True):
